@@ -21,6 +21,7 @@ lists (`reqattrs_normalised`, `commit_reqattr_normalised_admits`).
 -/
 import PvProofs.Lemmas.AdmitBuyer
 import PvProofs.Lemmas.AdmitAttr
+import PvProofs.Lemmas.AdmitStore
 import Mathlib.Tactic.SplitIfs
 
 namespace PvProofs.C20
@@ -694,39 +695,42 @@ theorem createBid_admits_iff {mk : Option Market} {attrs : List String} {bal : C
 
 /-- **Commit funds**: accepted ⇔ valid, market exists and accepts commitments, the account
 carries every attribute the stored create-commitment list names, the creation fee covers an
-option, and the account has the fee and the amount. -/
-theorem commitFunds_admits_iff {mk : Option Market} {attrs : List String} {bal : Coins} {m : CommitMsg}
-    (hw : ∀ mkt, mk = some mkt → (mkt.createCommitFlat.map (·.1)).Nodup) :
-    commitFunds mk attrs bal m = .ok () ↔
-      m.valid = true ∧ CommitAdmissible mk attrs m ∧ FundsOk bal m.cfee m.amount := by
-  unfold commitFunds CommitAdmissible FundsOk covers
+option, and the account has the fee and the amount.  `s` is whatever is stored under the
+market id — the statement holds for ids that are not markets too (then nothing is accepted,
+whatever flags, fee options or attribute lists were written under the id). -/
+theorem commitFunds_admits_iff {s : MStore} {attrs : List String} {bal : Coins} {m : CommitMsg}
+    (hw : s.known = true → (s.m.createCommitFlat.map (·.1)).Nodup) :
+    commitFunds s attrs bal m = .ok () ↔
+      m.valid = true ∧ CommitAdmissible s.view attrs m ∧ FundsOk bal m.cfee m.amount := by
+  unfold commitFunds CommitAdmissible FundsOk covers MStore.view
   by_cases hv : m.valid = true
   swap
   · simp [hv]
   simp only [hv, Bool.not_true, Bool.false_eq_true, if_false, true_and]
-  cases mk with
-  | none =>
-    simp only [validateMarketIsAcceptingCommitments, reduceCtorEq, false_and, exists_false,
-      iff_false]
-    rcases flatFee_refusal_is_fee [] m.cfee with a | a <;> simp only [a] <;> (try split_ifs) <;> simp
-  | some mkt =>
-    have h1 := flatFee_accepts_iff_spec (hw mkt rfl) m.cfee
-    simp only [validateMarketIsAcceptingCommitments, Option.some.injEq, exists_eq_left']
+  cases hk : s.known with
+  | false =>
+    simp only [Bool.false_eq_true, if_false, validateMarketIsAcceptingCommitments, reduceCtorEq,
+      false_and, exists_false, iff_false]
+    rcases flatFee_refusal_is_fee s.m.createCommitFlat m.cfee with a | a <;> simp only [a] <;>
+      (try split_ifs) <;> simp
+  | true =>
+    have h1 := flatFee_accepts_iff_spec (hw hk) m.cfee
+    simp only [if_true, validateMarketIsAcceptingCommitments, Option.some.injEq, exists_eq_left']
     rw [← h1, ← acctHasReqAttrs_iff]
-    rcases flatFee_refusal_is_fee mkt.createCommitFlat m.cfee with a | a
+    rcases flatFee_refusal_is_fee s.m.createCommitFlat m.cfee with a | a
     swap
     · simp [a]
     simp only [a, true_and]
     cases m.cfee with
     | none =>
       simp only
-      cases hc1 : Coins.covers bal [] <;> cases hacc : mkt.acceptingCommitments <;>
-        cases hat : acctHasReqAttrs mkt.reqCommit attrs <;>
+      cases hc1 : Coins.covers bal [] <;> cases hacc : s.m.acceptingCommitments <;>
+        cases hat : acctHasReqAttrs s.m.reqCommit attrs <;>
         cases hc2 : Coins.covers (Coins.sub bal []) m.amount <;> simp [hc1, hacc, hat, hc2]
     | some c =>
       simp only
-      cases hc1 : Coins.covers bal [c] <;> cases hacc : mkt.acceptingCommitments <;>
-        cases hat : acctHasReqAttrs mkt.reqCommit attrs <;>
+      cases hc1 : Coins.covers bal [c] <;> cases hacc : s.m.acceptingCommitments <;>
+        cases hat : acctHasReqAttrs s.m.reqCommit attrs <;>
         cases hc2 : Coins.covers (Coins.sub bal [c]) m.amount <;> simp [hc1, hacc, hat, hc2]
 
 /-- **User fill of bids** passes the market's gate ⇔ the market exists, accepts orders, allows
@@ -980,14 +984,13 @@ requested create-commitment attribute (normalised), the creation fee covers an o
 the funds are there. -/
 theorem commitFunds_requested_iff {requested : Market} {attrs : List String} {bal : Coins}
     {m : CommitMsg} (hw : (requested.createCommitFlat.map (·.1)).Nodup) :
-    commitFunds (some (storeMarket requested)) attrs bal m = .ok () ↔
+    commitFunds ⟨true, storeMarket requested⟩ attrs bal m = .ok () ↔
       m.valid = true ∧ requested.acceptingCommitments = true ∧
       AttrsOkNorm requested.reqCommit attrs ∧ FlatFeeOk requested.createCommitFlat m.cfee ∧
       FundsOk bal m.cfee m.amount := by
-  rw [commitFunds_admits_iff (mk := some (storeMarket requested))
-    (fun mkt h => by cases h; exact hw)]
-  unfold CommitAdmissible
-  simp only [Option.some.injEq, exists_eq_left']
+  rw [commitFunds_admits_iff (s := ⟨true, storeMarket requested⟩) (fun _ => hw)]
+  unfold CommitAdmissible MStore.view
+  simp only [if_true, Option.some.injEq, exists_eq_left']
   constructor
   · rintro ⟨hv, ⟨ha, hat, hf⟩, hfu⟩; exact ⟨hv, ha, hat, hf, hfu⟩
   · rintro ⟨hv, ha, hat, hf, hfu⟩; exact ⟨hv, ⟨ha, hat, hf⟩, hfu⟩
@@ -1000,16 +1003,190 @@ attribute names are always normalised. -/
 theorem commit_reqattr_not_normalised_before_fix :
     let requested : Market := { acceptingCommitments := true, reqCommit := ["KYC.pb"] }
     let msg : CommitMsg := { marketId := 1, amount := [("usd", 5)], cfee := none }
-    commitFunds (some (storeMarketPreFix requested)) ["kyc.pb"] [("usd", 10)] msg = .error .attr ∧
+    commitFunds ⟨true, storeMarketPreFix requested⟩ ["kyc.pb"] [("usd", 10)] msg = .error .attr ∧
     AttrsOkNorm requested.reqCommit ["kyc.pb"] ∧
     msg.valid = true ∧ FundsOk [("usd", 10)] msg.cfee msg.amount := by
   refine ⟨by rfl, by decide, by decide, by decide⟩
 
 /-- The current code admits the same commitment. -/
 theorem commit_reqattr_normalised_admits :
-    commitFunds (some (storeMarket { acceptingCommitments := true, reqCommit := ["KYC.pb"] }))
+    commitFunds ⟨true, storeMarket { acceptingCommitments := true, reqCommit := ["KYC.pb"] }⟩
       ["kyc.pb"] [("usd", 10)] { marketId := 1, amount := [("usd", 5)], cfee := none } = .ok () := by
   rfl
+
+/-! ### Histories: only a created market admits, with the configuration in force
+
+The authority's per-market messages do not look whether the id is a market, so flags, fee
+options and required attributes can be written under any id at any time.  These theorems say
+that none of it matters for admission: an id that was never created admits nothing, and a
+market admits by the configuration it was created with as changed by the messages sent
+after its creation — for every history. -/
+
+/-- **What was stored under an id before the market was created does not survive its
+creation**, and an id that was never created is not a market: for every history the market
+an admission sees is the declared configuration in force. -/
+theorem history_view_eq_configInForce (h : History) : h.run.view = h.configInForce := by
+  unfold History.run History.configInForce MStore.view
+  cases hr : h.requested with
+  | none =>
+    simp only [foldl_admin_known, Option.map_none]
+    rfl
+  | some rq =>
+    have hk : (List.foldl MStore.admin {} h.pre).known = false := by
+      rw [foldl_admin_known]
+    simp only [foldl_admin_known, foldl_admin_m, MStore.create, hk, Bool.false_eq_true, if_false,
+      if_true, Option.map_some]
+    rfl
+
+/-- **An id that is not a market admits nothing**, whatever is stored under it (accepting
+flags, user-settle flag, fee options, required attributes). -/
+theorem unknown_id_admits_nothing {s : MStore} (hk : s.known = false) (attrs : List String)
+    (bal : Coins) :
+    (∀ m, createAsk s.view attrs bal m ≠ .ok ()) ∧ (∀ m, createBid s.view attrs bal m ≠ .ok ()) ∧
+    (∀ m, commitFunds s attrs bal m ≠ .ok ()) ∧
+    (∀ cfee sflat, fillBidsGate s.view attrs cfee sflat ≠ .ok ()) ∧
+    (∀ cfee tp fees, fillAsksGate s.view attrs cfee tp fees ≠ .ok ()) := by
+  have hv : s.view = none := by unfold MStore.view; simp [hk]
+  refine ⟨?_, ?_, ?_, ?_, ?_⟩
+  · intro m; rw [hv]; unfold createAsk validateMarketIsAcceptingOrders; split_ifs <;> simp
+  · intro m; rw [hv]; unfold createBid validateMarketIsAcceptingOrders; split_ifs <;> simp
+  · intro m h
+    have := (commitFunds_admits_iff (s := s) (attrs := attrs) (bal := bal) (m := m)
+      (fun h' => by rw [hk] at h'; cases h')).1 h
+    obtain ⟨_, ⟨mkt, hm, _⟩, _⟩ := this
+    rw [hv] at hm; cases hm
+  · intro cfee sflat; rw [hv]
+    unfold fillBidsGate validateAcceptingOrdersAndCanUserSettle validateMarketIsAcceptingOrders
+    split_ifs <;> simp
+  · intro cfee tp fees; rw [hv]
+    unfold fillAsksGate validateAcceptingOrdersAndCanUserSettle validateMarketIsAcceptingOrders
+    split_ifs <;> simp
+
+/-- A history without a creation leaves an id that is not a market. -/
+theorem history_without_creation_unknown {h : History} (hn : h.requested = none) :
+    h.run.known = false := by
+  unfold History.run
+  simp only [hn, foldl_admin_known]
+
+/-- **The entries under a market id stay a map** (one flat option per denom and kind, one
+ratio per denom pair and kind) under every authority message: the well-formedness the
+admission theorems assume of a stored market is an invariant of histories, not only of
+`Market.Validate` at creation. -/
+theorem configInForce_keys_nodup {h : History}
+    (hw : ∀ rq, h.requested = some rq → KeysNodup rq) :
+    ∀ c, h.configInForce = some c → KeysNodup c := by
+  intro c hc
+  unfold History.configInForce at hc
+  cases hr : h.requested with
+  | none => rw [hr] at hc; cases hc
+  | some rq =>
+    rw [hr] at hc
+    simp only [Option.map_some, Option.some.injEq] at hc
+    subst hc
+    exact foldl_applyTo_keys_nodup (asRequested_keys_nodup (hw rq hr)) h.post
+
+/-- **Commit funds, for every history**: accepted ⇔ valid, the id was created as a market and
+the configuration in force accepts commitments, names no attribute the account lacks, and has
+a creation-fee option the offer covers (or none), and the funds are there. -/
+theorem commitFunds_history_iff {h : History} {attrs : List String} {bal : Coins} {m : CommitMsg}
+    (hw : ∀ rq, h.requested = some rq → KeysNodup rq) :
+    commitFunds h.run attrs bal m = .ok () ↔
+      m.valid = true ∧ CommitAdmissible h.configInForce attrs m ∧ FundsOk bal m.cfee m.amount := by
+  rw [← history_view_eq_configInForce]
+  apply commitFunds_admits_iff
+  intro hk
+  have hv : h.run.view = some h.run.m := by unfold MStore.view; simp [hk]
+  rw [history_view_eq_configInForce] at hv
+  exact (configInForce_keys_nodup hw _ hv).flats .commit
+
+/-- **Create ask, for every history** (hypothesis: the configuration in force is well formed
+for the message, as in `createAsk_admits_iff`). -/
+theorem createAsk_history_iff {h : History} {attrs : List String} {bal : Coins} {m : AskMsg}
+    (hw : ∀ c, h.configInForce = some c → MarketAskWf c m) :
+    createAsk h.run.view attrs bal m = .ok () ↔
+      m.valid = true ∧ AskAdmissible h.configInForce attrs m ∧ FundsOk bal m.cfee m.holdAmount := by
+  rw [history_view_eq_configInForce]
+  exact createAsk_admits_iff hw
+
+/-- **Create bid, for every history.** -/
+theorem createBid_history_iff {h : History} {attrs : List String} {bal : Coins} {m : BidMsg}
+    (hw : ∀ c, h.configInForce = some c → MarketBidWf c m.price) :
+    createBid h.run.view attrs bal m = .ok () ↔
+      m.valid = true ∧ BidAdmissible h.configInForce attrs m ∧ FundsOk bal m.cfee m.holdAmount := by
+  rw [history_view_eq_configInForce]
+  exact createBid_admits_iff hw
+
+/-- **User fill of bids, for every history** (no hypothesis beyond the requested market
+being a map). -/
+theorem fillBidsGate_history_iff {h : History} {attrs : List String} {cfee sflat : Option Coin}
+    (hw : ∀ rq, h.requested = some rq → KeysNodup rq) :
+    fillBidsGate h.run.view attrs cfee sflat = .ok () ↔
+      fillBidsValid cfee sflat = true ∧ FillBidsAdmissible h.configInForce attrs cfee sflat := by
+  rw [history_view_eq_configInForce]
+  apply fillBidsGate_iff
+  intro c hc
+  have := configInForce_keys_nodup hw c hc
+  exact ⟨this.flats .ask, this.flats .seller⟩
+
+/-- **User fill of asks, for every history.** -/
+theorem fillAsksGate_history_iff {h : History} {attrs : List String} {cfee : Option Coin}
+    {tp : Coin} {fees : List Coin}
+    (hw : ∀ c, h.configInForce = some c → MarketBidWf c tp) :
+    fillAsksGate h.run.view attrs cfee tp fees = .ok () ↔
+      fillAsksValid cfee tp fees = true ∧ FillAsksAdmissible h.configInForce attrs cfee tp fees := by
+  rw [history_view_eq_configInForce]
+  exact fillAsksGate_iff hw
+
+/-- **After MsgGovCloseMarket nothing is admitted** (until a later message reopens the
+market): a history whose last message is the closing one admits no order and no commitment. -/
+theorem closed_market_admits_nothing {h : History} {post : List Step}
+    (hp : h.post = post ++ [.close]) (attrs : List String) (bal : Coins) :
+    (∀ m, createAsk h.run.view attrs bal m ≠ .ok ()) ∧
+    (∀ m, createBid h.run.view attrs bal m ≠ .ok ()) ∧
+    (∀ m, commitFunds h.run attrs bal m ≠ .ok ()) := by
+  have hcfg : ∀ c, h.run.view = some c → c.acceptingOrders = false ∧ c.acceptingCommitments = false := by
+    intro c hc
+    rw [history_view_eq_configInForce] at hc
+    unfold History.configInForce at hc
+    cases hr : h.requested with
+    | none => rw [hr] at hc; cases hc
+    | some rq =>
+      rw [hr, hp] at hc
+      simp only [Option.map_some, Option.some.injEq, List.foldl_append, List.foldl_cons,
+        List.foldl_nil] at hc
+      subst hc
+      exact ⟨rfl, rfl⟩
+  refine ⟨?_, ?_, ?_⟩
+  · intro m hm
+    unfold createAsk at hm
+    cases hv : h.run.view with
+    | none =>
+      simp only [hv, validateMarketIsAcceptingOrders] at hm
+      split_ifs at hm
+    | some c =>
+      have := (hcfg c hv).1
+      simp only [hv, validateMarketIsAcceptingOrders, this, Bool.false_eq_true, if_false] at hm
+      split_ifs at hm
+  · intro m hm
+    unfold createBid at hm
+    cases hv : h.run.view with
+    | none =>
+      simp only [hv, validateMarketIsAcceptingOrders] at hm
+      split_ifs at hm
+    | some c =>
+      have := (hcfg c hv).1
+      simp only [hv, validateMarketIsAcceptingOrders, this, Bool.false_eq_true, if_false] at hm
+      split_ifs at hm
+  · intro m hm
+    unfold commitFunds at hm
+    cases hv : h.run.view with
+    | none =>
+      simp only [hv, validateMarketIsAcceptingCommitments] at hm
+      split_ifs at hm <;> (try split at hm) <;> simp_all
+    | some c =>
+      have := (hcfg c hv).2
+      simp only [hv, validateMarketIsAcceptingCommitments, this, Bool.false_eq_true, if_false] at hm
+      split_ifs at hm <;> (try split at hm) <;> simp_all
 
 /-! ### Non-vacuity: concrete instances of the hypotheses and of both outcomes -/
 
@@ -1044,5 +1221,28 @@ example : WildcardMatch ["kyc".toList, "pb".toList] ["us".toList, "kyc".toList, 
 example : isReqAttrMatch "*.kyc.pb" "us.kyc.pb" = true := by decide
 example : isReqAttrMatch "*.kyc.pb" "kyc.pb" = false := by decide
 example : isReqAttrMatch "*.kyc.pb" "us.evilkyc.pb" = false := by decide
+
+/-- a history with residue: before the market exists the authority switches commitments on,
+writes a create-commitment fee option and a required attribute under its id; the market is then
+created not accepting commitments, with no fee and no required attribute -/
+def residueHistory : History :=
+  { pre := [.acceptingCommitments true, .flatFees .commit [] [("aaa", 5)], .reqAttrs .commit [] ["Kyc.pb"]],
+    requested := some {}, post := [] }
+
+example : residueHistory.configInForce = some {} := by rfl
+example : (residueHistory.run.view.map (·.acceptingCommitments)) = some false := by rfl
+example : commitFunds residueHistory.run [] [("usd", 10)]
+    { marketId := 1, amount := [("usd", 5)], cfee := none } = .error .closed := by rfl
+/-- the same messages for an id that never becomes a market: refused as "no such market" -/
+example : commitFunds ({ pre := residueHistory.pre, requested := none, post := [] } : History).run ["kyc.pb"]
+    [("usd", 10), ("aaa", 5)] { marketId := 1, amount := [("usd", 5)], cfee := some ("aaa", 5) }
+    = .error .market := by rfl
+/-- sent after the creation they count -/
+example : commitFunds ({ pre := [], requested := some {}, post := residueHistory.pre } : History).run
+    ["kyc.pb"] [("usd", 10), ("aaa", 5)]
+    { marketId := 1, amount := [("usd", 5)], cfee := some ("aaa", 5) } = .ok () := by rfl
+example : KeysNodup { createAskFlat := [("fee", 10), ("usd", 3)],
+                      buyerRatios := [⟨"usd", 100, "fee", 1⟩, ⟨"usd", 100, "usd", 2⟩] } :=
+  ⟨fun k => by cases k <;> decide, by decide, by decide⟩
 
 end PvProofs.C20
